@@ -5,7 +5,8 @@
    non-deterministic / non-smooth / invalid anywhere), all parameters and every max_iterations >= 1. *)
 From Coq Require Import List ZArith Bool.
 From Coq Require Floats.
-From LN Require Import C07_Defs C07_Statements C07_Proofs.
+From Coq Require Import Reals.
+From LN Require Import C07_Defs C07_Statements C07_Proofs C07_Real.
 Import ListNotations.
 Import PrimFloat.PrimFloatNotations.   (* notations only: the primitives print as PrimFloat.* in Print Assumptions *)
 Local Open Scope float_scope.
@@ -82,6 +83,34 @@ Proof.
   destruct (ls_get_ok phi prm p0 a t0 M H) as [[_ [_ Hs]] _]. exact (Hs V).
 Qed.
 Print Assumptions C07_backtrack_cgdescent_state_valid.
+
+(* LeMarechal / Fletcher / More-Thuente (and, vacuously, the other two): a success that carries an INVALID state happens
+   only in one situation -- the initial `*0.3` loop of lsearchk_t::get used up all max_iterations evaluations and every one
+   of them was invalid (allbad: reached from state0 by evaluations with invalid answers only) *)
+Theorem C07_invalid_success_only_after_exhausted_shrink : forall phi prm p0 a t0,
+  let r := ls_get phi prm p0 a t0 in
+  ok r = true -> pv (cur (rs r)) = false ->
+  allbad phi p0 (rs r) /\ length (trace (rs r)) = Z.to_nat (maxit prm).
+Proof. intros phi prm p0 a t0 r H V. exact (ls_get_stale phi prm p0 a t0 H V). Qed.
+Print Assumptions C07_invalid_success_only_after_exhausted_shrink.
+
+(* "up to rounding": over the reals (Flocq; R_of = the real value of a finite double, rnd = rounding to nearest-even in
+   binary64) the accepted boolean tests are the textbook inequalities with each operation of the right-hand side rounded
+   once -- provided the operands / intermediate results are finite *)
+Theorem C07_real_meaning_armijo : forall p0 p t c1,
+  PrimFloat.is_finite (pf p) = true -> PrimFloat.is_finite (pf p0) = true ->
+  PrimFloat.is_finite (t * c1) = true -> PrimFloat.is_finite (t * c1 * pg p0) = true ->
+  PrimFloat.is_finite (pf p0 + t * c1 * pg p0) = true ->
+  has_armijo p0 p t c1 = true ->
+  (R_of (pf p) <= rnd (R_of (pf p0) + rnd (rnd (R_of t * R_of c1) * R_of (pg p0))))%R.
+Proof. exact armijo_real. Qed.
+Print Assumptions C07_real_meaning_armijo.
+
+Theorem C07_real_meaning_wolfe : forall p0 p c2,
+  PrimFloat.is_finite (pg p) = true -> PrimFloat.is_finite (c2 * pg p0) = true ->
+  has_wolfe p0 p c2 = true -> (rnd (R_of c2 * R_of (pg p0)) <= R_of (pg p))%R.
+Proof. exact wolfe_real. Qed.
+Print Assumptions C07_real_meaning_wolfe.
 
 (* ---------- statements that are FALSE of the faithful model (kept visible in C07_Statements.v; searched on the
    implementation) ---------- *)
